@@ -142,6 +142,21 @@ func fillValue(fv reflect.Value, tag string) {
 	}
 }
 
+// isIRIByAssertion: does COMPILED code see an IRI in this interface-typed field?  (x.(IRI) on a non-empty interface compares
+// itab pointers, so a value stored through a field of another named interface type is not recognised)
+func isIRIByAssertion(f reflect.Value) bool {
+	if f.Kind() != reflect.Interface || !f.CanAddr() {
+		return false
+	}
+	// (every interface-typed field of the vocabulary structs is declared as Item; a field of another named interface type
+	//  does not match here and is therefore reported when its counterpart does)
+	if p, ok := f.Addr().Interface().(*ap.Item); ok {
+		_, isIRI := (*p).(ap.IRI)
+		return isIRI
+	}
+	return false
+}
+
 func alias(n string) string {
 	if n == "OrderedItems" {
 		return "Items"
@@ -210,11 +225,19 @@ func c08One(fn, gt, form string) J {
 		if !reflect.DeepEqual(got, sf.Interface()) {
 			bad = append(bad, "read-differs:"+name)
 		}
+		// an item read through the view must still be what compiled code takes it for (reflection re-packs interface values
+		// and cannot see a foreign itab)
+		if !isIRIByAssertion(vv.Elem().Field(i)) && isIRIByAssertion(sf) {
+			bad = append(bad, "read-loses-dynamic-type:"+name)
+		}
 		// writes through a view of a pointer are seen by the original
 		if form == "pointer" && vt.Size() <= t.Size() {
 			fillValue(vv.Elem().Field(i), "w"+name)
 			if !reflect.DeepEqual(vv.Elem().Field(i).Interface(), sf.Interface()) {
 				bad = append(bad, "write-not-seen:"+name)
+			}
+			if isIRIByAssertion(vv.Elem().Field(i)) && !isIRIByAssertion(sf) {
+				bad = append(bad, "write-loses-dynamic-type:"+name)
 			}
 		}
 	}
